@@ -136,6 +136,18 @@ def split_oracle(fields, impl, model):
     return tags
 
 
+def files_oracle(fields, impl, model):
+    """C16: the harness's own listing of the denoted directory (os.ReadDir + os.Stat, plain path
+    resolution) must equal the candidates that survive the prefix filter of the typed word"""
+    if impl and impl[0] == b"panic":
+        return [("panic", impl[1][:80] if len(impl) > 1 else b"")]
+    if b"#" in impl:
+        v = impl[impl.index(b"#") + 1]
+        if v != b"match":
+            return [("listing-differs", v[:200])]
+    return []
+
+
 # pid -> list of streams; each stream: harness name, model runner, oracle runner, counts
 PROPS = {
     "C11": dict(streams=[dict(harness="multiparts", model="multiparts", oracle="multiparts_oracle", quick=6000, thorough=200000)],
@@ -214,6 +226,15 @@ PROPS = {
                      "COMP_WORDBREAKS; split: embedded lines of 0-2 earlier words (plain, quoted, escaped, non-ASCII, flags; with pipeline / redirect "
                      "operators for SplitP) and a last word in every style (empty, plain, open double / single quote, escaped blank, non-ASCII), "
                      "candidate values over word characters and blanks, no-space sets; non-trivial = the wrapped action was reached with candidates"),
+    "C16": dict(streams=[dict(harness="path", model="path", oracle=None, quick=21000, thorough=120000),
+                         dict(harness="files", model="files", oracle=None, quick=900, thorough=40000,
+                              project=lambda f, x: _cut(x), oracle_cmp=files_oracle, nontrivial=lambda f, impl: len(impl) > 5)],
+                tie="Model/Files.v clean/dir/base/abs <-> path/filepath (exhaustive over short paths); action_files on the abstract tree <-> real ActionFiles / ActionDirectories on the materialised tree",
+                rule="path: ALL paths of length <= 6 over {a . / ~ b} (19531) plus random longer ones; files: generated trees (4-13 entries: nested "
+                     "directories, files with blanks / quotes / non-ASCII / leading dots / several suffixes, symbolic links to directories, files and "
+                     "nowhere, absolute and relative) materialised under a scratch directory; Context.Dir = a directory of the tree (never the process "
+                     "working directory); typed path = directory part (empty, ./, ../, absolute, ~/, one or two segments, ./seg/) + partial last segment; "
+                     "ActionFiles with suffix filters or ActionDirectories; non-trivial = at least one candidate"),
 }
 
 TRUSTED = ["Go harness stream(s) and extracted oracle of this property (see rule)"]
@@ -400,3 +421,8 @@ def pred_split_nonascii_text(f):
 def pred_split_redirect_wordbreak(f):
     import re
     return b"P" in f["case"][0] and re.search(rb"[<>][&<>]*\s*[=:(@]", f["case"][2]) is not None
+
+
+def pred_files_seg_dotdot(f):
+    import re
+    return re.search(rb"[^/.][^/]*/\.\./", f["case"][2]) is not None or re.search(rb"\.[^/.][^/]*/\.\./", f["case"][2]) is not None
